@@ -84,11 +84,11 @@ Proof.
     + rewrite ev_fresh. reflexivity.
 Qed.
 Theorem EADeme_ctor_ok lvl started seed pop_size : 1 <= pop_size -> ctor_ok lvl started false (gen_EADeme_init pop_size (gen_init_args lvl started seed)) (engine_pop seed pop_size).
-Proof. apply (engine_ctor gen_EADeme_init). reflexivity. Qed.
+Proof. apply (engine_ctor gen_EADeme_init). intros ps [l st [|]]; reflexivity. Qed.
 Theorem DEDeme_ctor_ok lvl started seed pop_size : 1 <= pop_size -> ctor_ok lvl started false (gen_DEDeme_init pop_size (gen_init_args lvl started seed)) (engine_pop seed pop_size).
-Proof. apply (engine_ctor gen_DEDeme_init). reflexivity. Qed.
+Proof. apply (engine_ctor gen_DEDeme_init). intros ps [l st [|]]; reflexivity. Qed.
 Theorem SHADEDeme_ctor_ok lvl started seed pop_size : 1 <= pop_size -> ctor_ok lvl started false (gen_SHADEDeme_init pop_size (gen_init_args lvl started seed)) (engine_pop seed pop_size).
-Proof. apply (engine_ctor gen_SHADEDeme_init). reflexivity. Qed.
+Proof. apply (engine_ctor gen_SHADEDeme_init). intros ps [l st [|]]; reflexivity. Qed.
 (* a sprouted engine deme starts from a population that contains the seed's genome, evaluated by the deme itself *)
 Theorem engine_pop_has_seed pop_size : In (done_ OSeedGenome) (engine_pop true pop_size).
 Proof. unfold engine_pop. apply in_or_app. right. now left. Qed.
